@@ -62,6 +62,7 @@ fn main() {
     ctx.assume("separators are limited to ' ', TAB, LF, CR, CRLF; words are printable ASCII; scripts never read a typed token that is not there (DESIGN §6.5)");
     ctx.assume("the reference parser defines a line as: up to the next LF, one CR directly before that LF belongs to the terminator; an unterminated rest is the last line");
     ctx.replayer("reader-case", |v| run_case(&serde_json::from_value::<Case>(v.clone()).expect("case")));
+    ctx.replayer("reader-many", |v| run_many(&serde_json::from_value::<Many>(v.clone()).expect("case")));
     ctx.begin();
 
     // buffer size, learnt from the length of the slice the reader hands to Read::read
@@ -141,6 +142,14 @@ fn main() {
         }
         ctx.exhaustive("shorter-chunk-after-a-longer-one", "reader-case", "a word of digits longer than the next token, then the minimum / maximum of each of the 12 integer types delivered in a chunk of its own (5 chunkings, 3 separators)", false, stale, run_case);
     }
+    ctx.exhaustive(
+        "many-refills-on-one-reader",
+        "reader-many",
+        "4000 / 7000 / 8000 / 13000 repetitions of a 17-byte unit delivered 1, 2 or 3 bytes per read call (68000 .. 119000 read calls on one reader)",
+        false,
+        vec![Many { reps: 4000, chunk: 1 }, Many { reps: 7000, chunk: 1 }, Many { reps: 13000, chunk: 3 }, Many { reps: 8000, chunk: 2 }],
+        run_many,
+    );
     ctx.prop_split("generated", "reader-case", ctx.n(6_000, 1_500_000), ctx.parts(), case(10).boxed(), run_case);
     ctx.prop_split("generated-short", "reader-case", ctx.n(6_000, 1_000_000), ctx.parts(), case(3).boxed(), run_case);
     if buf >= 1024 && buf <= (1 << 22) {
